@@ -92,7 +92,7 @@ type evalOpts struct {
 // evaluate parses src, builds data, evaluates once in a fresh runner.
 func evaluate(src string, data val.V, opts *evalOpts) *EvalOut {
 	out := &EvalOut{}
-	sc, err := formula.ParseSourceCode([]byte(src))
+	sc, err := hostParse([]byte(src), true)
 	if err != nil {
 		out.ParseErr = err
 		return out
